@@ -199,6 +199,59 @@ func (c *Ctx) checkSanitizeRanges(rule string) {
 		why = fmt.Sprintf("expected exactly three comparisons of the rune against Ranges[i][0], Ranges[i][1] and Characters[i], found %d", len(cmps))
 	}
 	c.check(ok, rule, key, cl.Pos(), "valid iff Ranges[i][0] <= ch <= Ranges[i][1] for some i, or ch == Characters[i] for some i", why)
+
+	// ... and of nothing else: before the table is consulted the rune is not compared with anything that
+	// is not in the table (a character that "counts as valid" because it equals the replacement, a
+	// constant, ...). Only comparisons that dominate one of the table comparisons are judged: what the
+	// closure does with the rune after validity is decided (how it writes it) is not this rule's business.
+	var runeVals []ssa.Value
+	instrsOf(cl, func(in ssa.Instruction) {
+		if ex, isEx := in.(*ssa.Extract); isEx && ex.Index == 2 {
+			if nx, isNx := ex.Tuple.(*ssa.Next); isNx && nx.IsString {
+				runeVals = append(runeVals, ex)
+			}
+		}
+	})
+	isRune := func(v ssa.Value) bool {
+		v = canon(v)
+		if cv, isCv := v.(*ssa.Convert); isCv {
+			v = canon(cv.X)
+		}
+		for _, r := range runeVals {
+			if v == r {
+				return true
+			}
+		}
+		return false
+	}
+	foreign := 0
+	instrsOf(cl, func(in ssa.Instruction) {
+		bo, isBo := in.(*ssa.BinOp)
+		if !isBo {
+			return
+		}
+		switch bo.Op {
+		case token.EQL, token.NEQ, token.LSS, token.LEQ, token.GTR, token.GEQ:
+		default:
+			return
+		}
+		if !isRune(bo.X) && !isRune(bo.Y) {
+			return
+		}
+		if classify(bo.X) >= 0 || classify(bo.Y) >= 0 {
+			return
+		}
+		for _, x := range cmps {
+			if x.at.Parent() == cl && (bo.Block() == x.at.Block() && instrIndex(bo) < instrIndex(x.at) || bo.Block() != x.at.Block() && bo.Block().Dominates(x.at.Block())) {
+				foreign++
+				c.bad(rule, key+":foreign-test", bo.Pos(), "before the allow-list is consulted the rune is compared with something that is not in it ("+c.describe(bo)+"): whether a character passes no longer depends on the option alone - e.g. a rune equal to the replacement (an invalid byte decodes to U+FFFD) passes through raw", c.describe(bo))
+				return
+			}
+		}
+	})
+	if foreign == 0 && len(runeVals) > 0 {
+		c.ok(rule, key+":foreign-test", cl.Pos(), "no comparison of the rune with anything outside the allow-list precedes the allow-list tests")
+	}
 }
 
 func (c *Ctx) checkSanitizerTable(rule string) {
